@@ -154,8 +154,6 @@ func refDurParse(s string) string {
 	return secs.String() + " " + nanos.String()
 }
 
-var durNoDigitsRe = regexp.MustCompile(`^[+-]?\.s$`)
-
 // ---------- the checks ----------
 
 var fracDigitsRe = regexp.MustCompile(`^-?[0-9]+(?:\.([0-9]+))?s$`)
@@ -206,11 +204,7 @@ func durCheckParse(c *C, s string) {
 	}
 	ref := refDurParse(s)
 	if impl != ref {
-		sig := ""
-		if ref == "none" && impl == "0 0" && durNoDigitsRe.MatchString(s) {
-			sig = sigDurNoDigits
-		}
-		fail(c, fmt.Sprintf("protojson.Unmarshal(%q, Duration) = {%s}, documented grammar + range = {%s}", s, impl, ref), in, sig)
+		fail(c, fmt.Sprintf("protojson.Unmarshal(%q, Duration) = {%s}, documented grammar + range = {%s}", s, impl, ref), in, "")
 	}
 	if f := implDurUnmarshalField(s); f != impl {
 		fail(c, fmt.Sprintf("Duration %q as a field parses to {%s}, standalone {%s}", s, f, impl), in, "")
